@@ -17,7 +17,7 @@ pub fn meta() -> PropertyMeta {
     PropertyMeta {
         id: "C17",
         level: "exploration",
-        rule: "underlying types u8, i32, i64, f32, f64, Frequency<f32>, Time<f32>; tokens: the five keywords in short/long form x case and near misses (one character shorter/longer, MINI, DEFA, UPP, DOW), decimal literals on / just inside / just outside the bounds, INF/NINF/NAN for floats, suffixed values, non-numeric elements; configurations (min <= max incl. min = max, bounds at the type extremes and +-inf, default inside or absent, no bounds at all) through both builder paths. Oracle: executable specification of the property text. Added: every order of the builder's setters and the NumericBuilder::new constructor; EVERY letter string up to 4 (5) characters as a character datum for five underlying types. Non-trivial: value within one step of a bound, keyword near miss, NaN/inf, or min = max.",
+        rule: "underlying types u8, i32, i64, f32, f64, Frequency<f32>, Time<f32>; tokens: the five keywords in short/long form x case and near misses (one character shorter/longer, MINI, DEFA, UPP, DOW), decimal literals on / just inside / just outside the bounds, INF/NINF/NAN for floats, suffixed values, non-numeric elements; configurations (min <= max incl. min = max, bounds at the type extremes and +-inf, default inside or absent, no bounds at all) through both builder paths. Oracle: executable specification of the property text. Added: every order of the builder's setters and the NumericBuilder::new constructor, the parsed value passed through NumericValue::map or an arithmetic operator before it is resolved; EVERY letter string up to 4 (5) characters as a character datum for five underlying types. Non-trivial: value within one step of a bound, keyword near miss, NaN/inf, or min = max.",
         assumptions: &[
             "min <= max and default (if any) inside [min,max] are preconditions of the configuration",
             "the underlying conversion (T::try_from) is judged by C07/C08/C18; here the value path is compared with it",
@@ -154,6 +154,16 @@ where
         },
         5 => {
             let b = scpi_contrib::scpi1999::NumericBuilder::new(nv, max, min);
+            match default {
+                Some(d) => b.default(d).finish(),
+                None => b.finish(),
+            }
+        }
+        // the parsed value handed through `map` (a handler that converts or scales the number before
+        // resolving it): the special forms must come out of it as they went in
+        7 | 8 => {
+            let nv = if case.path == 7 { nv.map(|x| x) } else { nv.map(|x| (x, 0u8)).map(|t| t.0) };
+            let b = nv.build().min(min).max(max);
             match default {
                 Some(d) => b.default(d).finish(),
                 None => b.finish(),
@@ -399,12 +409,49 @@ fn case_strategy() -> impl Strategy<Value = Case> {
                 1 => proptest::collection::vec(any::<u8>(), 0..5).prop_map(Tok::Block),
                 1 => "[0-9,:]{0,5}".prop_map(Tok::Expr),
             ];
-            (Just(ty), tok, Just((lo, hi, def)), prop_oneof![4 => Just(0u8), 2 => Just(1u8), 1 => Just(2u8), 1 => Just(3u8), 1 => Just(4u8), 1 => Just(5u8), 1 => Just(6u8)])
+            (Just(ty), tok, Just((lo, hi, def)), prop_oneof![4 => Just(0u8), 2 => Just(1u8), 1 => Just(2u8), 1 => Just(3u8), 1 => Just(4u8), 1 => Just(5u8), 1 => Just(6u8), 1 => Just(7u8), 1 => Just(8u8)])
         })
         .prop_map(|(ty, tok, (lo, hi, def), path)| Case { ty, tok, min: lo.to_bits(), max: hi.to_bits(), default: def.map(f64::to_bits), path })
 }
 
+/// The arithmetic operators of `NumericValue` (a handler scaling volts to millivolts before it
+/// resolves the parameter): (variant 0..6, operator 0..4, integer type?). The special forms pass
+/// through unchanged - so that UP / DOWN still end as an illegal-parameter error and MIN / MAX /
+/// DEF still resolve - and a number is operated on.
+fn check_operator(c: &(u8, u8, bool), obs: &Obs) -> CheckResult {
+    fn variant<T: Copy>(k: u8, v: T) -> NumericValue<T> {
+        match k {
+            0 => NumericValue::Maximum,
+            1 => NumericValue::Minimum,
+            2 => NumericValue::Default,
+            3 => NumericValue::Up,
+            4 => NumericValue::Down,
+            _ => NumericValue::Value(v),
+        }
+    }
+    let (k, op, int) = *c;
+    let name = ["+", "-", "*", "/"][op as usize % 4];
+    // resolved with min 0, max 1000, default 7: what the handler would see in the end
+    let (got, want): (String, String) = if int {
+        let nv = variant(k, 12i32);
+        let r = match op % 4 { 0 => nv + 4, 1 => nv - 4, 2 => nv * 4, _ => nv / 4 };
+        let w = variant(k, match op % 4 { 0 => 16, 1 => 8, 2 => 48, _ => 3 });
+        (format!("{:?} -> {:?}", r, r.build().min(0).max(1000).default(7).finish().map_err(|e| e.get_code())), format!("{:?} -> {:?}", w, w.build().min(0).max(1000).default(7).finish().map_err(|e| e.get_code())))
+    } else {
+        let nv = variant(k, 12.0f64);
+        let r = match op % 4 { 0 => nv + 4.0, 1 => nv - 4.0, 2 => nv * 4.0, _ => nv / 4.0 };
+        let w = variant(k, match op % 4 { 0 => 16.0, 1 => 8.0, 2 => 48.0, _ => 3.0 });
+        (format!("{:?} -> {:?}", r, r.build().min(0.0).max(1000.0).default(7.0).finish().map_err(|e| e.get_code())), format!("{:?} -> {:?}", w, w.build().min(0.0).max(1000.0).default(7.0).finish().map_err(|e| e.get_code())))
+    };
+    obs.label("operator on a numeric_value");
+    obs.nontrivial_if(k < 5, c);
+    ensure!(got == want, "operator-changes-form", "NumericValue variant {k} {name} 4 ({}): {got}; expected {want}", if int { "i32" } else { "f64" });
+    Ok(())
+}
+
 fn run(e: &Engine) {
+    let ops: Vec<(u8, u8, bool)> = (0..6u8).flat_map(|k| (0..4u8).flat_map(move |op| [(k, op, false), (k, op, true)])).collect();
+    e.fixed("operators-keep-special-forms", ops, check_operator);
     // bounded-exhaustive: EVERY letter string up to a length as a character datum of a numeric_value
     // (keywords in their short forms resolve; every other string is what the underlying type makes of it)
     const LETTERS: &[u8] = b"ABCDEFGHIJKLMNOPQRSTUVWXYZ";
@@ -416,7 +463,7 @@ fn run(e: &Engine) {
         kw.parts() * TYS.len() as u64,
         move |p, f| {
             let ty = TYS[(p / kwr.parts()) as usize];
-            kwr.run(p % kwr.parts(), &mut |s| s.is_empty() || f(Case { ty, tok: Tok::Chr(String::from_utf8_lossy(s).into_owned()), min: 2f64.to_bits(), max: 100f64.to_bits(), default: Some(7f64.to_bits()), path: (s.len() % 7) as u8 }))
+            kwr.run(p % kwr.parts(), &mut |s| s.is_empty() || f(Case { ty, tok: Tok::Chr(String::from_utf8_lossy(s).into_owned()), min: 2f64.to_bits(), max: 100f64.to_bits(), default: Some(7f64.to_bits()), path: ((s.len() + s[0] as usize) % 9) as u8 }))
         },
         check,
     );
@@ -430,7 +477,7 @@ fn run(e: &Engine) {
         move |p, f| {
             for (i, w) in chimr.iter().enumerate() {
                 for tok in [Tok::Chr(w.clone()), Tok::Str(w.clone()), Tok::Block(w.clone().into_bytes()), Tok::Expr(w.clone())] {
-                    if !f(Case { ty: ALL_TY[p as usize], tok, min: 2f64.to_bits(), max: 100f64.to_bits(), default: Some(7f64.to_bits()), path: (i % 7) as u8 }) {
+                    if !f(Case { ty: ALL_TY[p as usize], tok, min: 2f64.to_bits(), max: 100f64.to_bits(), default: Some(7f64.to_bits()), path: (i % 9) as u8 }) {
                         return;
                     }
                 }
